@@ -31,8 +31,10 @@ let one_type (s : string) : ty =
   match parse_description (list_of_str s) with Ok [t] -> t | _ -> raise (Bad ("sig " ^ s))
 let base_of_type = function TBase b -> b | _ -> raise (Bad "base expected")
 
-(* extended signature (variants as v[...]) -> ety *)
+(* extended signature (variants as v[...]) -> ety. The flavour markers of gen/catalogue.py select another Rust type for
+   the same D-Bus type and do not exist in the model: D S O G are d s o g, a marker C R N B after 'a' is skipped. *)
 let parse_ety (s : string) : ety =
+  let s = String.map (function 'D' -> 'd' | 'S' -> 's' | 'O' -> 'o' | 'G' -> 'g' | c -> c) s in
   let n = String.length s in
   let pos = ref 0 in
   let rec go () : ety =
@@ -40,6 +42,7 @@ let parse_ety (s : string) : ety =
     incr pos;
     match c with
     | 'a' ->
+        if !pos < n && String.contains "CRNB" s.[!pos] then incr pos;
         if !pos < n && s.[!pos] = '{' then begin
           incr pos;
           let k = base_of_type (one_type (String.make 1 s.[!pos])) in
@@ -122,7 +125,7 @@ let eval (line : string) : string =
   let next () = let t = toks.(!pos) in incr pos; t in
   let op = next () in
   match op with
-  | "MT" | "MP" ->
+  | "MT" | "MP" | "MPR" | "MPX" ->
       let typed = (op = "MT") in
       let _ty = if typed then next () else "" in
       let be = be_of (next ()) in
@@ -131,7 +134,7 @@ let eval (line : string) : string =
       let r = op_marshal typed be (nat_of_int prefix) v in
       Printf.sprintf "%s buf=%s nfds=%d spec=%s encodable=%s" (if r.mt_ok then "ok" else "err") (hex_of_list r.mt_buf)
         (int_of_n r.mt_nfds) (hex_of_list r.mt_spec) (b2s r.mt_encodable)
-  | "RT" | "RP" ->
+  | "RT" | "RP" | "RPR" | "RPX" ->
       let typed = (op = "RT") in
       let e = if typed then parse_ety (next ()) else EBase BByte in
       let be = be_of (next ()) in
@@ -214,6 +217,33 @@ let eval (line : string) : string =
               | Ok (xs, n) -> Printf.sprintf "ok %s %s" (string_of_n n) (String.concat " " (List.concat_map tok_of_val xs))
               | o -> status o)
        | _ -> "badsig")
+  (* ---- BEGIN C15 block (owner of C15; uses only functions already extracted). PNEWX: parser over the current body's
+     signature/descriptors with OTHER bytes; PCUR: both cursors; PGETM/BPUSHM: get / get2..5 and push_param / push_param2..5
+     with a different type per slot ---- *)
+  | "PNEWX" ->
+      let buf = list_of_hex (next ()) in
+      cur_parser := new_parser { !cur_body with bbuf = buf };
+      "ok " ^ parser_state ()
+  | "PCUR" -> Printf.sprintf "cur=%s,%s" (string_of_n !cur_parser.pbuf_idx) (string_of_n !cur_parser.psig_idx)
+  | "PGETM" ->
+      let k = int_of_string (next ()) in
+      let es = List.init k (fun _ -> ()) |> List.map (fun () -> parse_ety (next ())) in
+      if k = 1 then
+        (match get !cur_parser (List.hd es) with
+         | Ok (p', r) -> cur_parser := p'; gres_str r ^ " " ^ parser_state ()
+         | o -> status o)
+      else
+        (match get_n !cur_parser es with
+         | Ok (p', Some vs) -> cur_parser := p'; "ok " ^ String.concat " " (List.concat_map tok_of_val vs) ^ " " ^ parser_state ()
+         | Ok (p', None) -> cur_parser := p'; "fail " ^ parser_state ()
+         | o -> status o)
+  | "BPUSHM" ->
+      let k = int_of_string (next ()) in
+      let items = List.init k (fun _ -> ()) |> List.map (fun () -> let t = erase (parse_ety (next ())) in (t, parse_val toks pos)) in
+      let (b', ok) = step_body !cur_body (if k = 1 then Push (List.hd items) else PushN items) in
+      cur_body := b';
+      (if ok then "ok " else "err ") ^ body_state ()
+  (* ---- END C15 block ---- *)
   | _ -> "?"
 
 let () =
